@@ -25,6 +25,7 @@ EXPLANATION = (
     "when the solved flag is lowered or the solver replaced; (R4) the custom timeout wins over the backend status and "
     "is reset before each run; (R5) no process exit is reachable and no handler swallows an exception around a solver "
     "(P5 of the search protocol) a lower bound cached across calls is raised inside the search only after a proven-infeasible run.  "
+    " (R6) re-entrancy of solve(): a model's own solve() drops the cached solution (and the solver values read) before it runs the solver, a search over sub-models lowers its flag and drops its solution before the first run, and every class with solve() initialises the flag in its constructor. "
     "run except the one tabled in _run_with_timeout.  NOT decided: that HiGHS' kOptimal is a proof (trusted)."
 )
 DECIDED = ["is_solved() is raised only under a proof condition (all writers, all paths)",
